@@ -257,6 +257,17 @@ func termLogger(b termBeh, core zapcore.Core, custom zapcore.CheckWriteHook) *za
 	quiet := zap.ErrorOutput(zapcore.AddSync(io.Discard))
 	h := len(b.Fe) + b.Lvl + len(b.Core) + len(b.Hook)
 	var lg *zap.Logger
+	if h%5 == 4 {
+		// through zap.Config: development mode is a field of the configuration, next to unrelated ones
+		cfg := zap.Config{Level: zap.NewAtomicLevelAt(zapcore.DebugLevel), Development: b.Dev, DisableStacktrace: h%2 == 0, DisableCaller: h%3 == 0,
+			Encoding: "json", EncoderConfig: zap.NewProductionEncoderConfig()}
+		nb := b
+		nb.Dev = false
+		copts := append(termOptions(nb, custom), quiet, zap.WrapCore(func(zapcore.Core) zapcore.Core { return core }))
+		if l, err := cfg.Build(copts...); err == nil {
+			return l
+		}
+	}
 	switch h % 3 {
 	case 0:
 		lg = zap.New(core, append(opts, quiet)...)
